@@ -29,7 +29,7 @@ EmitTag(tag, rec) == PrintT(<<tag, ToJson(rec)>>)
 SeqSet(s) == {s[i] : i \in DOMAIN s}
 Norm(o) == IF o = "panic" THEN "err" ELSE o
 
-WellFormed(r) == /\ SeqSet(r.kinds) \subseteq (Terminal \cup {"flip"})
+WellFormed(r) == /\ SeqSet(r.kinds) \subseteq (Terminal \cup {"flip", "flip_short"})
                  /\ SeqSet(r.locals) \subseteq LocalSt
                  /\ r.outcome \in {"err", "full", "short", "garbled", "panic", "hang", "abort"}
 
